@@ -60,6 +60,11 @@ func main() {
 	}
 	var jobs []job
 	for i := 0; i < nHist; i++ {
+		if i%4 == 3 {
+			// many families, created between reopens (family ids handed out by a reopened store)
+			jobs = append(jobs, job{i, "families"})
+			continue
+		}
 		jobs = append(jobs, job{i, "random"})
 	}
 	for i := 0; i < nBig; i++ {
